@@ -7,8 +7,9 @@ from pydcop.dcop.relations import NAryMatrixRelation
 
 INF = float("inf")
 
-# concrete domains: strings and non-contiguous ints, so that an index is never a value by accident
-DOMVALS = {"x": ["a", "b"], "y": [0, 1], "z": [2, 5, 9], "w": ["R", "G"], "u": [1, 0]}
+# concrete domains: non-contiguous ints shared by several variables at different positions, so that an index is never a
+# value by accident and a value never identifies its variable
+DOMVALS = {"x": [5, 3], "y": [3, 5], "z": [3, 5, 9], "w": ["R", "G"], "u": [1, 0]}
 
 
 def cost_py(c):
